@@ -78,3 +78,21 @@ Proof.
   exists st1, st2. vm_compute in E1, E2. inversion E1; inversion E2; subst.
   repeat split; try reflexivity. vm_compute. discriminate.
 Qed.
+
+(* the same for the order of files inside a chunk (findImportedPartsInJSOrder):
+   chunkOrder{sourceIndex, distance, tieBreaker = StableSourceIndices[sourceIndex]};
+   the distance from the entry point is a property of the file *)
+Definition as_chunk_order (st : scan) (order : option (list Z)) (dist : Z -> Z) (f : Z) : chunkOrder :=
+  let i := index_of_file st f in mkCO i (dist f) (stable_of order i).
+
+Lemma chunk_order_two_schedules imports roots sched1 sched2 st1 st2 fuel (dist : Z -> Z) :
+  run_scan imports (fst (scan_init roots)) sched1 = Some st1 ->
+  run_scan imports (fst (scan_init roots)) sched2 = Some st2 ->
+  scan_complete st1 = true -> scan_complete st2 = true ->
+  forall files,
+    isort (fun a b => chunkOrder_less (as_chunk_order st1 (linker_order st1 fuel roots) dist a) (as_chunk_order st1 (linker_order st1 fuel roots) dist b)) files
+    = isort (fun a b => chunkOrder_less (as_chunk_order st2 (linker_order st2 fuel roots) dist a) (as_chunk_order st2 (linker_order st2 fuel roots) dist b)) files.
+Proof.
+  intros R1 R2 D1 D2 files. apply isort_ext. intros a b. unfold as_chunk_order, chunkOrder_less. cbn [co_dist co_tie].
+  now rewrite !(stable_of_file imports roots fuel st1 sched1 R1 D1), !(stable_of_file imports roots fuel st2 sched2 R2 D2).
+Qed.
